@@ -315,18 +315,11 @@ def run(run):
     cfgs = build.QUICK_CONFIGS if run.tier == 'quick' else build.THOROUGH_CONFIGS
     witness.run_witness(run, 'W-inst', 'c09_inst.cpp', cfgs[:1] if run.tier == 'quick' else cfgs,
                         compilers=('clang++',) if run.tier == 'quick' else ('clang++', 'g++'))
-    inst_failed = any(o['rule'] == 'W-inst' and o['verdict'] != 'ok' for o in run.obligations)
+    from rules import common
     for cfg in cfgs:
-        try:
-            db = build.load_db(cfg, log=run.log)
-        except build.AnalysisBroken as e:
-            if inst_failed:
-                run.note('fact extraction failed because a wrapper member does not instantiate (reported by W-inst): %s' % str(e)[:200])
-                for k in run.floors:
-                    if k != 'W-inst':
-                        run.floors[k] = 0   # nothing else can be analysed until the member compiles again
-                return
-            raise
+        db = common.load_or_skip(run, cfg, ('W-inst',))
+        if db is None:
+            return
         run.count('functions_analysed', len(db.fns))
         check_forwarding(run, db)
         check_trackers(run, db)
